@@ -1,7 +1,7 @@
 """C07 - send callbacks are truthful and fire exactly once; every datagram is resolved exactly once."""
 import collections
 
-from checks.common import UdpCheck, gen_traffic, limits, Monitor, ConnectionStatus
+from checks.common import UdpCheck, gen_traffic, limits, Monitor, ConnectionStatus, FragExpiryProbe
 from checks.c05 import open_pairs, is_guaranteed, lenclass
 from world.attacker import Attacker
 from world import refmodel as R
@@ -95,12 +95,7 @@ class C07(UdpCheck):
     def gen(self, rng, tier, i):
         case = gen_traffic(rng, i, tier, retries=(0, 0, 1, -1, -1), cb_p=1.0)
         cfg, plan = case["cfg"], case["plan"]
-        # vary the message timeout (both sides) and attack the ack path specifically
-        if rng.random() < 0.4:
-            mt = rng.choice([0.3, 0.5, 1.0, 2.0])
-            cfg["server"]["msg_timeout"] = mt
-            for cl in cfg["clients"]:
-                cl["msg_timeout"] = mt
+        # (the message timeout is varied by gen_traffic, always above the worst RTT of the run)
         t0, t1 = cfg["phases"][0]["t0"] if cfg["phases"] else 1.0, cfg["t_heal"]
         if rng.random() < 0.5:
             side = rng.choice(["src", "dst"])       # only one direction loses: data arrives, acks do not (or v.v.)
@@ -121,7 +116,8 @@ class C07(UdpCheck):
 
     def monitors(self, case):
         self.mon = CallbackMonitor()
-        return [self.mon]
+        self.fx = FragExpiryProbe()
+        return [self.mon, self.fx]
 
     def prepare(self, w, case):
         Attacker(w)
@@ -141,13 +137,16 @@ class C07(UdpCheck):
         for cn, cconn, sconn in open_pairs(w):
             open_names.add(w.conn_name(cconn))
             open_names.add(w.conn_name(sconn))
-        peer_conn = {}
-        for cn in w.clients:
-            if cn.client is not None and cn.client.conn is not None:
-                sc = w.ctxt.connections.get(cn.addr)
-                if sc is not None:
-                    peer_conn[w.conn_name(cn.client.conn)] = w.conn_name(sc)
-                    peer_conn[w.conn_name(sc)] = w.conn_name(cn.client.conn)
+        # candidate peer connections by client address (a connection may be gone by the end of the run)
+        peers = collections.defaultdict(list)
+        by_client = collections.defaultdict(list)
+        for sc in w.all_server_conns:
+            by_client[w.net.name(sc.addr)].append(w.conn_name(sc))
+        for inc in w.incarnations:
+            cn_ = w.conn_name(inc["conn"])
+            peers[cn_] = list(by_client.get(inc["name"], []))
+            for sname in by_client.get(inc["name"], []):
+                peers[sname].append(cn_)
         for rec in w.sends:
             if not rec["cb"] or rec["ok"] is not True or rec["status"] != "CONNECTED":
                 continue
@@ -161,11 +160,17 @@ class C07(UdpCheck):
             # ---- truthfulness
             for t, value in calls:
                 if value:
-                    acc = mon.accepted.get((peer_conn.get(cname), rec["sig"]), [])
+                    acc = sorted(t_ for p_ in peers.get(cname, ()) for t_ in mon.accepted.get((p_, rec["sig"]), ()))
                     if not any(ta <= t + 1e-9 for ta in acc):
-                        vs.append({"kind": "callback_true_before_peer_accepted", "key": "%s:%s:%s" % (side, mode, shape),
+                        cause, purged = "cause=unknown", []
+                        if frag and not acc:
+                            for p_ in peers.get(cname, ()):
+                                cause, purged = self.fx.cause(w, rec, p_)
+                                if purged:
+                                    break
+                        vs.append({"kind": "callback_true_before_peer_accepted", "key": "%s:%s:%s:%s" % (side, mode, shape, cause),
                                    "detail": {"mid": rec["mid"], "len": rec["len"], "t_cb": t, "accepted_at": acc[:3],
-                                              "who": rec["who"], "mtu": mtu}})
+                                              "who": rec["who"], "mtu": mtu, "purged": purged}})
                 else:
                     first_seq = R.ring_add(rec["msgseq0"], 1)
                     # first transmission of the message = earliest transmission of any of its fragments
